@@ -312,8 +312,9 @@ LOOP:
 		}
 		r.hw = hw
 		segments = r.cl.Segments()
-		hwIdx, hwPos, err := getHWPos(segments, r.hw)
-		if err != nil {
+		hwIdx, hwPos, hwErr := getHWPos(segments, r.hw)
+		if hwErr != nil {
+			err = hwErr
 			break
 		}
 		r.hwPos = hwPos
@@ -374,6 +375,10 @@ func (l *commitLog) newReaderCommitted(offset int64) (contextReader, error) {
 
 	position := int64(0)
 	seg, contains := findSegmentContains(segments, offset)
+	if seg == nil {
+		// The HW is ahead of the log and so is the offset.
+		return nil, ErrSegmentNotFound
+	}
 	if contains {
 		entry, err := seg.findEntry(offset)
 		if err != nil {
@@ -394,7 +399,19 @@ func (l *commitLog) newReaderCommitted(offset int64) (contextReader, error) {
 func getHWPos(segments []*segment, hw int64) (int, int64, error) {
 	hwSeg, hwIdx := findSegment(segments, hw)
 	if hwSeg == nil {
-		return 0, 0, ErrSegmentNotFound
+		if len(segments) == 0 {
+			return 0, 0, ErrSegmentNotFound
+		}
+		// The HW is ahead of the log, e.g. a replica that is catching up
+		// learns the leader's HW before it has the data, so everything in the
+		// log is committed. Read the position before checking the offset such
+		// that a concurrent append cannot put a message past the HW below it.
+		hwIdx = len(segments) - 1
+		hwSeg = segments[hwIdx]
+		pos := hwSeg.Position()
+		if hwSeg.NextOffset() <= hw {
+			return hwIdx, pos, nil
+		}
 	}
 	hwEntry, err := hwSeg.findEntry(hw)
 	if err != nil {
